@@ -29,7 +29,7 @@ Print Assumptions C11_expr.
 
 (* Equations: simple equations (lhs - rhs), if-equations with else branch (first true
    condition selects the block), for-equations over lo:hi (every i in lo..hi, 1-based array
-   elements x[i+k]).  The residual block CasADi evaluates has one entry per flat Real equation,
+   elements x[i+k]; lo:st:hi with any non-zero step).  The residual block CasADi evaluates has one entry per flat Real equation,
    and each entry equals lhs - rhs under Modelica semantics wherever that is defined.
    (For a for-equation the entries are listed equation-major, as m_res states.) *)
 Theorem C11_residual (F : positive -> Qc -> Qc) (T : table) (rm : menv) (rc : cenv) (q : eqn) :
@@ -54,39 +54,48 @@ Proof.
 Qed.
 Print Assumptions C11_total.
 
-(* ... the repaired OP_MAP satisfies the core side condition, while the table before commit
-   1779c2f ("/" -> __div__, which casadi.MX does not have) fails on any division *)
+(* ... the OP_MAP of HEAD satisfies all of it, while the table before commit 1779c2f
+   ("/" -> __div__, which casadi.MX does not have) fails on any division *)
 Theorem C11_total_fixed_table :
-  table_ok good_table = true /\
+  table_ok good_table = true /\ ne_ok good_table = true /\ table_total good_table = true /\
   tr prefix_table (EBin BDiv (ERef (RVar 1%positive)) (ERef (RVar 2%positive))) = Err E_nomethod.
-Proof. split; [exact good_table_ok | exact prefix_division_fails]. Qed.
+Proof.
+  destruct good_table_total as [H1 H2].
+  split; [exact good_table_ok | split; [exact H1 | split; [exact H2 | exact prefix_division_fails]]].
+Qed.
 Print Assumptions C11_total_fixed_table.
 
-(* KNOWN, unrepaired: Modelica's inequality `a <> b` reaches the generator as operator "<>",
-   which OP_MAP lacks (it has an unreachable "!=" key): generation fails.  C11_total is
-   refuted for the current table; C11_expr / C11_residual carve out exactly `<>`. *)
+(* before e57542a Modelica's inequality `a <> b` reached the generator as operator "<>", which
+   OP_MAP lacked (it only had an unreachable "!=" key): generation failed.  C11_expr /
+   C11_residual hold for that table too, carving out exactly `<>`. *)
 Theorem C11_total_refuted_ne :
-  ne_ok good_table = false /\
-  exists e, tr good_table e = Err E_notable.
+  table_ok pre_ne_table = true /\ ne_ok pre_ne_table = false /\
+  exists e, tr pre_ne_table e = Err E_notable.
 Proof.
-  destruct good_table_ne_fails as [H1 H2]. split; [exact H1 |]. eexists. exact H2.
+  destruct pre_ne_table_fails as (H0 & H1 & H2). split; [exact H0 | split; [exact H1 |]]. eexists. exact H2.
 Qed.
 Print Assumptions C11_total_refuted_ne.
 
 (* for i in lo:hi visits exactly lo..hi *)
-Theorem C11_loop_range (lo hi v : Z) : In v (loop_values lo hi) <-> (lo <= v <= hi)%Z.
-Proof. exact (loop_values_In lo hi v). Qed.
+Theorem C11_loop_range (lo hi v : Z) : In v (range_values lo 1 hi) <-> (lo <= v <= hi)%Z.
+Proof. exact (range_values_step1_In lo hi v). Qed.
 Print Assumptions C11_loop_range.
 
-(* KNOWN, unrepaired: a three-part range a:b:c is read as start:stop:step; Modelica means
-   start:step:stop.  The theorems above are therefore about two-part ranges only (the model's
-   QFor has no step); the carved-out input class is exactly "for-index with three-part range". *)
-Theorem C11_three_part_range_refuted :
-  exists a b c, impl_range3 a b c <> modelica_range3 a b c.
+(* three-part ranges (repaired in 3facb7b): for every non-zero step - positive or negative,
+   dividing the span or not - the values the generator loops over are exactly the Modelica range
+   lo, lo+st, ..., not beyond hi.  C11_residual uses this: m_res ranges over modelica_range. *)
+Theorem C11_three_part_range (lo st hi : Z) :
+  st <> 0%Z -> range_values lo st hi = modelica_range lo st hi.
+Proof. exact (range_values_modelica lo st hi). Qed.
+Print Assumptions C11_three_part_range.
+
+(* the reading of the tree before 3facb7b (a:b:c as start:stop:step) is refuted by 1:2:5 *)
+Theorem C11_three_part_range_old_reading_refuted :
+  exists a b c, old_range3 a b c <> modelica_range a b c.
 Proof.
-  exists 1%Z, 2%Z, 5%Z. destruct range3_differs as [-> ->]. intro H. discriminate H.
+  exists 1%Z, 2%Z, 5%Z. destruct old_range3_differs as [-> ->]. intro H. discriminate H.
 Qed.
-Print Assumptions C11_three_part_range_refuted.
+Print Assumptions C11_three_part_range_old_reading_refuted.
 
 (* non-vacuity: a concrete well-typed expression with or / and / not / relation / if, whose
    Modelica meaning is defined at a point related to a CasADi point *)
